@@ -1,3 +1,4 @@
 import SSJ.Props.C16
 import SSJ.Props.C17
 import SSJ.Props.C03
+import SSJ.Props.C06
